@@ -368,12 +368,23 @@ def dump(t):
 
 
 class _SortUnion(ast.NodeTransformer):
-    """Union[..] arguments in a canonical order (typing.Union is order-insensitive)."""
+    """Union[..] arguments in a canonical order (typing.Union is order-insensitive).  With a renaming, the order is
+    that of the RENAMED arguments (the tree itself is not renamed), so that the result lines up with the sorted
+    output of the renamed program."""
+
+    def __init__(self, m=None):
+        self.m = m
+
+    def key(self, e):
+        if self.m:
+            import copy
+            return dump(_PyRen(self.m).visit(copy.deepcopy(e)))
+        return dump(e)
 
     def visit_Subscript(self, n):
         self.generic_visit(n)
         if isinstance(n.value, ast.Name) and n.value.id == "Union" and isinstance(n.slice, ast.Tuple):
-            n.slice.elts = sorted(n.slice.elts, key=dump)
+            n.slice.elts = sorted(n.slice.elts, key=self.key)
         return n
 
 
@@ -796,11 +807,14 @@ def judge(p, tr, special_targets):
         if dump(t0r) != d1:
             if dump(_SortUnion().visit(t0r)) == dump(_SortUnion().visit(ast.parse(unhex(r1[1])))):
                 fails.append(("union-order", a, "Union[..] members in a different order", set()))
+                # the two outputs correspond node by node once the members are put in one order: go on to the
+                # capture check on the reordered trees
+                t0, t1 = _SortUnion(p.map).visit(t0), _SortUnion().visit(t1)
             else:
                 c0, c1 = py_ids(t0r), py_ids(t1)
                 names = {k for k in set(c0) | set(c1) if c0[k] != c1[k]}
                 fails.append(("output", a, "identifiers that differ: " + " ".join(sorted(names)), names))
-            continue
+                continue
         cap = captures(t0, t1, src_ids, p.map)
         if cap:
             fails.append(("capture", a, "generator-introduced name bound by the user: " + " ".join(sorted(cap)), cap))
@@ -844,6 +858,10 @@ def selftest():
                                  "import math\nmath = 3\nprint(math.sqrt(4))\n"), ["capture"])
     expect("union order", kinds("class Ab\nclass Bc\ndef v: {Ab, Bc} := Ab()\n", {"Ab": "Zb"},
                                 "v: Union[Ab, Bc] = Ab()\n", "v: Union[Bc, Zb] = Zb()\n"), ["union-order"])
+    expect("union order and capture", kinds("class Ab\nclass Bc\ndef v: {Ab, Bc} := Ab()\n", {"Ab": "int"},
+                                            "class Ab:\n    x: int = 1\nclass Bc:\n    pass\nv: Union[Ab, Bc] = Ab()\n",
+                                            "class int:\n    x: int = 1\nclass Bc:\n    pass\nv: Union[Bc, int] = int()\n"),
+           ["capture", "union-order"])
     sx = "(A ~ (NCall s:%s [] [(A (NM [(TN F s:%s [])]) (NId s:%s))]))" % (hexs("f"), hexs("Int"), hexs("x"))
     expect("sx", sx_str(sx_ren_ast(sx_parse(sx), {"f": "g", "x": "y"})),
            "(A ~ (NCall s:%s [] [(A (NM [(TN F s:%s [])]) (NId s:%s))]))" % (hexs("g"), hexs("Int"), hexs("y")))
@@ -927,6 +945,23 @@ def run(tier, replay=None):
         tr.update(transpile_all([q.rsrc for q in singles.values()]))
     final = [f for f in failures if len(f[0].map) <= 1]
     done = set()
+
+    def minimise(p, kind):
+        """Drop names from the renaming while a failure of this kind remains (no single name reproduced it)."""
+        m, best = dict(p.map), None
+        for u in sorted(p.map):
+            if len(m) <= 1:
+                break
+            m2 = {k: v for k, v in m.items() if k != u}
+            q = Pair(p.src, p.kind, "part-of-" + p.family, m2)
+            if q.rsrc == p.src:
+                continue
+            tr.update(transpile_all([q.rsrc]))
+            hit = [f for f in judge1(q) if f[1] == kind]
+            if hit:
+                m, best = m2, hit[0]
+        return best
+
     for p, kind, a, detail, names in multi:
         found = False
         for u, t in p.map.items():
@@ -939,16 +974,21 @@ def run(tier, replay=None):
                     if (p.src, u, t, kind) not in done:
                         done.add((p.src, u, t, kind)); final.append(f)
         if not found:
-            final.append((p, kind, a, detail, names))
+            final.append(minimise(p, kind) or (p, kind, a, detail, names))
     ck.log(f"{len(failures)} failing pairs, {len(final)} after isolating single names; {time.time() - t0:.0f}s")
+
+    def culprit_of(p, kind, names):
+        """The reserved / special spellings the renaming touches; for output and capture failures those among them
+        that are the identifiers that differ / are captured."""
+        ent = {x for u, t in p.map.items() for x in (u, t) if x in touchy}
+        if kind in ("output", "capture") and names:
+            bare = {n.strip("_") for n in names} | set(names)
+            ent = {x for x in ent if x in bare} or ent
+        return " ".join(sorted(ent)) or "none"
 
     samples = []
     for p, kind, a, detail, names in final:
-        if len(p.map) == 1:
-            (u, t), = p.map.items()
-            culprit = " ".join(sorted({x for x in (u, t) if x in touchy})) or "none"
-        else:
-            culprit = "interaction"
+        culprit = culprit_of(p, kind, names)
         text = case_text(p, kind, detail, culprit)
         fail_classes[f"{kind}:{culprit}"] += 1
         o0, o1 = tr[(p.src, a)], tr[(p.rsrc, a)]
